@@ -10,6 +10,7 @@ def run(cx):
     S.decode_callargs(cx)
     S.header_fields(cx)
     S.propagation(cx)
+    S.tokenizer(cx)        # the odd-count refusal and the padding rule of TEXT-like segments (shared with C14)
     cx.decided += [
         'each of the three np.memmap calls maps the file object itself (bounded by the real file size), read-only, at the DATA begin offset, with the shape that the dominating size check compared against (end+1-begin | end-begin)',
         'the three size checks are alike',
